@@ -583,7 +583,12 @@ class State:
         if base.k in ("node", "entry"):
             return self.field_value(base, e["t"], self.sym_for(e))
         if base.k == "pos":
-            return base if self.ty.cls(e["t"]) in ("pos", "num") else NONE
+            if base.items == "ident" and name in ("start", "end"):
+                # an identifier's token range may begin with comments; the identifier token itself is the last one
+                self.sink("S-ident", name == "end", e["sp"], "an identifier's token is located from the end of its range",
+                          "`.start` of an Identifier's token range is used as the identifier's position, but the parser folds "
+                          "comments in front of a name into that range: with `var // c\n i: int;` it points at the comment")
+            return AV("pos", base.frame, unit=base.unit) if self.ty.cls(e["t"]) in ("pos", "num") else NONE
         if base.k in ("token", "toks"):
             if name == "range":
                 return AV("pos", Frame("abs"), unit="byte")
@@ -975,7 +980,9 @@ class State:
         if decl == "spl_frontend::ToRange::to_range":
             x = args[0]
             if x.k == "node":
-                return AV("pos", x.frame, unit="tok")
+                rt = self.ty.peel(arg_exprs[0]["t"]) if arg_exprs and arg_exprs[0] is not None else None
+                is_ident = bool(rt) and rt["k"] == "adt" and rt["p"] == AST + "Identifier"
+                return AV("pos", x.frame, unit="tok", items="ident" if is_ident else None)
             if x.k == "ref":
                 return AV("pos", x.frame.plus(x.sym), unit="tok")
             if x.k == "pos":
